@@ -497,14 +497,11 @@ func (fe *FactEngine) killCall(a *Alt, fn *ssa.Function, ins ssa.Instruction, c 
 	}
 	// closures invoked / deferred here write the locals they capture
 	modFields := map[*types.Var]bool{}
-	for _, e := range targets {
-		if e.Mode == ModeGo {
-			continue
-		}
-		for v := range fe.mr.Mod[e.Callee] {
+	if _, isGo := ins.(*ssa.Go); !isGo {
+		for v := range fe.mr.SiteMod(ins, -1) {
 			modFields[v] = true
 		}
-		for v := range fe.mr.ModLocals[e.Callee] {
+		for v := range fe.mr.SiteModLocals(ins) {
 			locals[v] = true
 		}
 	}
